@@ -18,6 +18,8 @@ import (
 	"math/rand"
 	"os"
 	"os/exec"
+	"path/filepath"
+	"runtime/pprof"
 	"sort"
 	"strconv"
 	"strings"
@@ -41,6 +43,7 @@ type step struct {
 	X  int    `json:"x,omitempty"`
 	B  int    `json:"b,omitempty"`
 	R  string `json:"r,omitempty"`
+	N  int    `json:"times,omitempty"` // delfail: how many DELETEs in a row fail (default 1)
 }
 
 type scenario struct {
@@ -104,11 +107,54 @@ func main() {
 
 // supervise runs children until every wanted scenario has been executed, then merges their traces
 // (renumbered densely from the shard's trace base).
+// withRandom appends the random long scenarios (seeded) to TLC's: many requests over the same few rows with
+// failing DELETEs, stalls and releases in between - the volume that makes the pipeline's queues, retry list and
+// batch buffers be written and read by different goroutines at the same time, which TLC's short sequences do not.
+func withRandom(o *common.Opts, raws []json.RawMessage) []json.RawMessage {
+	n := envInt("C11_RANDOM", 12)
+	if o.Thorough() {
+		n = envInt("C11_RANDOM", 48)
+	}
+	for j := 0; j < n; j++ {
+		r := rand.New(rand.NewSource(o.Seed*7919 + int64(j) + 424242))
+		var sc scenario
+		held := map[string]bool{}
+		for k := 60 + r.Intn(60); k > 0; k-- {
+			res := []string{"A", "B"}[r.Intn(2)]
+			switch p := r.Intn(100); {
+			case p < 55:
+				sc.Steps = append(sc.Steps, step{Op: "req", R: res, X: 1 + r.Intn(2), B: 1 + r.Intn(2)})
+			case p < 70:
+				sc.Steps = append(sc.Steps, step{Op: "delfail", R: res, N: 1 + r.Intn(4)})
+			case p < 75:
+				sc.Steps = append(sc.Steps, step{Op: "connfail", R: res})
+			case p < 83:
+				if !held[res] {
+					held[res] = true
+					sc.Steps = append(sc.Steps, step{Op: "hold", R: res})
+				}
+			case p < 93:
+				if held[res] {
+					held[res] = false
+					sc.Steps = append(sc.Steps, step{Op: "release", R: res})
+				}
+			default:
+				sc.Steps = append(sc.Steps, step{Op: "settle"})
+			}
+		}
+		sc.Late = []string{}
+		b, _ := json.Marshal(sc)
+		raws = append(raws, b)
+	}
+	return raws
+}
+
 func supervise(o *common.Opts) {
 	raws, err := trace.ReadScenarios(o.Scenarios)
 	if err != nil {
 		common.Fatal("%v", err)
 	}
+	raws = withRandom(o, raws)
 	var want []int
 	for i := range raws {
 		if o.Want(i) {
@@ -116,6 +162,7 @@ func supervise(o *common.Opts) {
 		}
 	}
 	pos, gen, restarts := 0, 0, 0
+	raceLeg := os.Getenv("C11_RACE") != ""
 	var parts []string
 	for pos < len(want) {
 		part := fmt.Sprintf("%s.child%d", o.Out, gen)
@@ -129,6 +176,10 @@ func supervise(o *common.Opts) {
 		args = append(args, "-only", strings.Join(idx, ","))
 		cmd := exec.Command(os.Args[0], args...)
 		cmd.Env = append(os.Environ(), fmt.Sprintf("C11_GEN=%d", gen))
+		if raceLeg {
+			// a binary built with -race: the detector's reports go to files and are turned into traces below
+			cmd.Env = append(cmd.Env, "GORACE=log_path="+o.Out+".race halt_on_error=0 exitcode=0")
+		}
 		cmd.Stderr = os.Stderr
 		out, err := cmd.Output()
 		if err != nil {
@@ -201,6 +252,29 @@ func supervise(o *common.Opts) {
 		os.Remove(p)
 		os.Remove(p + ".idx.json")
 	}
+	if raceLeg {
+		// every distinct data-race report of the run is a trace of its own, made of one event no specification
+		// has an action for: the worker's queues and buffers are shared by the run loop, the fanout workers and
+		// the request goroutines, and "no branch is lost" does not survive unsynchronised access to them
+		for _, rs := range common.RaceReports(o.Out + ".race") {
+			for k, ev := range []map[string]interface{}{
+				{"ev": "Init", "rows": []interface{}{}, "known": []interface{}{}, "setting": readSetting().name(), "sig": "race-report"},
+				{"ev": "Race", "where": rs, "sig": "race:" + rs},
+			} {
+				ev["t"], ev["k"], ev["n"] = next, k+1, 2
+				b, _ := json.Marshal(ev)
+				bw.Write(b)
+				bw.WriteByte('\n')
+			}
+			infos = append(infos, trace.Info{T: next, Class: "race-report", Scenario: map[string]interface{}{"i": -1, "race": rs}})
+			next++
+		}
+		if files, _ := filepath.Glob(o.Out + ".race.*"); os.Getenv("VERIF_RACE_DUMP") == "" {
+			for _, f := range files {
+				os.Remove(f)
+			}
+		}
+	}
 	if err := bw.Flush(); err != nil {
 		common.Fatal("%v", err)
 	}
@@ -264,6 +338,7 @@ func child(o *common.Opts) {
 	if err != nil {
 		common.Fatal("%v", err)
 	}
+	raws = withRandom(o, raws)
 	w, err := trace.NewWriter(o.Out)
 	if err != nil {
 		common.Fatal("%v", err)
@@ -308,6 +383,9 @@ func class(set setting, sc scenario) string {
 		case "hold":
 			hold++
 		}
+	}
+	if nreq > 8 {
+		return fmt.Sprintf("set=%s:long", set.name()) // the random long scenarios: one class
 	}
 	return fmt.Sprintf("set=%s:reqs=%d:res=%d:conn=%d:del=%d:hold=%d:late=%d", set.name(), nreq, len(res), conn, del, hold, len(sc.Late))
 }
@@ -529,7 +607,10 @@ func (wd *world) run(t *trace.T, sc scenario, cls, tag string, rnd *rand.Rand) b
 			wg.Add(1)
 			go func() {
 				defer wg.Done()
-				status, ok := lab.Coord.BranchCommit(lab.Sess, rw.X, rw.B, branch.BranchTypeAT, r.rid, nil, wd.bound+5*time.Second)
+				// the stand-in waits for the answer for as long as the scenario can keep the request at the door (a
+				// stalled database blocks the pipeline until the scenario releases it) plus the final bound
+				status, ok := lab.Coord.BranchCommit(lab.Sess, rw.X, rw.B, branch.BranchTypeAT, r.rid, nil,
+					wd.bound+5*time.Second+time.Duration(len(sc.Steps))*replyWait)
 				if ok {
 					t.Add("Reply", "row", rw.json(), "status", atlab.StatusName(status, ok), "sig", cls)
 					mu.Lock()
@@ -548,7 +629,7 @@ func (wd *world) run(t *trace.T, sc scenario, cls, tag string, rnd *rand.Rand) b
 			r.srv.AddFault(memsql.Fault{OnConnect: true})
 			t.Add("Arm", "what", "conn", "r", st.R, "sig", cls)
 		case "delfail":
-			r.srv.AddFault(memsql.Fault{Class: "delete", Table: "undo_log"})
+			r.srv.AddFault(memsql.Fault{Class: "delete", Table: "undo_log", Times: st.N})
 			t.Add("Arm", "what", "delete", "r", st.R, "sig", cls)
 		case "hold":
 			r.gmu.Lock()
@@ -577,6 +658,9 @@ func (wd *world) run(t *trace.T, sc scenario, cls, tag string, rnd *rand.Rand) b
 		}
 	}
 	within := waitQuiet(wd.bound, wd.idle)
+	if !within && os.Getenv("C11_DEBUG") != "" {
+		_ = pprof.Lookup("goroutine").WriteTo(os.Stderr, 1) // debugging aid: where is everybody
+	}
 	if within {
 		// let a spurious late delete show itself
 		time.Sleep(2*wd.set.Interval + 20*time.Millisecond)
